@@ -5,6 +5,10 @@ Each input line: {"script": ..., "expect": ["P<f1><f2>", "S0", "S!" ...]}.
 The script uses `probe` (defined below as a function) and `probe st $?`."""
 import sys, json, subprocess, collections
 shells = sys.argv[1:] or ["bash", "dash"]
+PRE_CTL = r'''probe() { __s=$?; if [ "$1" = -s ]; then __r=$2; shift 2; else __r=0; fi; echo "$1 $__s${2+ $2}${3+ $3}"; return $__r; }
+ext() { return 126; }
+pvar() { __s=$?; eval "echo \"$1 $__s \${$2-UNSET}\""; return 0; }
+'''
 PRE = r'''probe() { if [ $# -eq 2 ] && [ "$1" = st ]; then if [ "$2" = 0 ]; then echo S0; else echo 'S!'; fi; else printf P; [ $# -gt 0 ] && printf '<%s>' "$@"; echo; fi; }
 '''
 dis = collections.Counter()
@@ -13,6 +17,37 @@ for line in sys.stdin:
     line = line.strip()
     if not line: continue
     c = json.loads(line)
+    if "status" in c:
+        for sh in shells:
+            cmd = ["bash", "--posix", "-c"] if sh == "bash" else [sh, "-c"]
+            try:
+                r = subprocess.run(cmd + [PRE_CTL + c["script"]], capture_output=True, text=True, timeout=10, env={"PATH": "/bin:/usr/bin"})
+            except subprocess.TimeoutExpired:
+                print("TIMEOUT", sh); continue
+            got = r.stdout.split("\n")[:-1]
+            n += 1
+            def norm(lines):
+                out = []
+                for l in lines:
+                    parts = l.split(" ")
+                    out.append(parts)
+                return out
+            ok = len(got) == len(c["expect"])
+            if ok:
+                for g, e in zip(got, c["expect"]):
+                    gp, ep = g.split(" "), e.split(" ")
+                    if gp[0] != ep[0] or gp[2:] != ep[2:]: ok = False; break
+                    if ep[1] == "!":
+                        if gp[1] == "0": ok = False; break
+                    elif gp[1] != ep[1]: ok = False; break
+            st = c["status"]
+            if ok:
+                ok = (r.returncode != 0) if st == "!" else (str(r.returncode) == st)
+            if not ok:
+                dis[sh] += 1
+                if dis[sh] <= int(__import__('os').environ.get("SHOW", "6")):
+                    print(f"[{sh}] ---- script:\n{c['script']}\n   model: {c['expect']} exit {st}\n   {sh}: {got} exit {r.returncode}\n   stderr: {r.stderr[:300]}")
+        continue
     for sh in shells:
         cmd = ["bash", "--posix", "-c"] if sh == "bash" else [sh, "-c"]
         try:
